@@ -59,6 +59,8 @@ def gen_cases(seed, tier):
                         # transform; native torch spellings are exercised with the real zuko flow below
                         continue
                     add("precision", sampler=sampler, flow="simflow", xp=xp, dtype=dt, crash=(sampler == "smc"))
+                    if sampler in ("smc", "minipcn"):
+                        add("precision", sampler=sampler, flow="simflow", xp=xp, dtype=dt, crash=False, leaky=True)
         for src in XPS:
             for dst in XPS:
                 for sampler in ("importance", "smc"):
@@ -84,7 +86,7 @@ def scenario_of(case):
     scn["xp_out"] = case.get("xp_out")
     if case["kind"] == "precision" and case["sampler"] == "smc":
         scn["checkpoint"] = {"mode": "path", "every": 1}
-    if case["kind"] == "precision" and case["sampler"] in ("smc", "minipcn") and case["run_index"] % 2 == 0 and case["flow"] == "simflow":
+    if case["kind"] == "precision" and case.get("leaky"):
         # a proposal far wider than the prior support: the initial population is assembled from several proposal
         # batches (reject - concatenate - trim), which is one more place where a requested precision can get lost
         scn["flow"].update({"kind": "native", "alpha": 0.0, "inflate": 8.0})
@@ -176,7 +178,7 @@ def run_case(case, workdir):
     r = with_model_probe(scn)
     evaluations += 1
     events = len(r.trace.events)
-    key = [kind, scn["sampler"], scn["flow"]["backend"], scn["xp"], scn["dtype"], scn.get("xp_out")]
+    key = [kind, scn["sampler"], scn["flow"]["backend"], scn["xp"], scn["dtype"], scn.get("xp_out"), bool(case.get("leaky"))]
     if r.status != "ok":
         if kind == "consume" or kind == "xp_out":
             V.append(O.violation(
